@@ -155,9 +155,10 @@ func cmdRun(args []string) int {
 	t0 := time.Now()
 
 	dirs, err := harnessDirsFor(*prop)
-	workDir := filepath.Join(verifRoot, ".work", *prop+"-"+*tier)
+	workDir := filepath.Join(verifRoot, ".work", fmt.Sprintf("%s-%s-%d", *prop, *tier, os.Getpid()))
 	os.RemoveAll(workDir)
 	os.MkdirAll(workDir, 0o755)
+	defer os.RemoveAll(workDir)
 	extra := map[string]string{}
 	var genSkipped []string
 	if *prop == "C08" || *prop == "C09" {
